@@ -34,6 +34,9 @@ def cases(chk):
         d = {"tag": "message", "mtype": "text", "hasProto": 1, "media": "absent", "payload": "other", "pseed": r.randrange(1 << 30) if i >= 9 * 4 else i * 1000003 + i,
              "participant": r.choice([0, 1])}
         yield "recv", {"d": d, "flags": r.choice(c06.FLAGSETS), "enc": r.choice([0, 1])}
+    # the same stanza 2-4 times under the same id on the same stack: every occurrence is acknowledged
+    for d in [x for x in c06.SUPPORTED if _relevant(x) and x["tag"] in ("iq", "call", "notification")]:
+        yield "recv", {"d": d, "flags": r.choice(c06.FLAGSETS), "enc": r.choice([0, 1]), "repeat": r.choice([2, 3, 4])}
     n = 0
     while n < chk.scale(800, 20000):
         d = c06.rand_desc(r)
